@@ -21,7 +21,9 @@ outlive the call that makes it or be seen by another goroutine:
 * a field of a `reqSet` (`…:reqSet`), however it is reached: `reqSet` values exist only inside
   the derived field `requiredSets`, which `buildCharacterList` rebuilds from scratch on every call
   (`recvfield` writes) in the caller's private copy of the recipe — no `reqSet` is ever shared.
-Everything else — a package-level variable, a variable captured by a function literal, an element
+Everything else — an `append` whose first argument is a slice parameter, a slice-typed receiver, a
+reslice of one or a local defined as one (`paramappend`: with spare capacity it writes behind the
+caller's slice), a package-level variable, a variable captured by a function literal, an element
 of a parameter or of a slice/map receiver (the caller's own `RequireSets`, the caller's tokens),
 any other pointer — is not. -/
 def localWrite (w : String × String × String) : Bool :=
